@@ -9,17 +9,23 @@ package nodenumaresource
 // Wire formats are documented at the top of the Extract.v files.
 
 import (
+	"encoding/json"
 	"fmt"
 	"math/rand"
+	"runtime"
 	"sort"
+	"strings"
 	"sync"
 	"testing"
+
+	nrtv1alpha1 "github.com/k8stopologyawareschedwg/noderesourcetopology-api/pkg/apis/topology/v1alpha1"
 
 	corev1 "k8s.io/api/core/v1"
 	"k8s.io/apimachinery/pkg/api/resource"
 	metav1 "k8s.io/apimachinery/pkg/apis/meta/v1"
 	"k8s.io/apimachinery/pkg/types"
 
+	"github.com/koordinator-sh/koordinator/apis/extension"
 	schedulingconfig "github.com/koordinator-sh/koordinator/pkg/scheduler/apis/config"
 	"github.com/koordinator-sh/koordinator/pkg/scheduler/frameworkext/topologymanager"
 	"github.com/koordinator-sh/koordinator/pkg/util/bitmask"
@@ -538,154 +544,350 @@ func vtC06ResList(c, m int64) corev1.ResourceList {
 	return rl
 }
 
-func vtC06LedgerExec(in []int64) []int64 {
+// vtC06Live is one live resourceManager with the bookkeeping of Spec.concretize / edges_alloc:
+// edges (guest, host, CPUs the guest holds out of the host's).
+type vtC06Edge struct {
+	guest, host int64
+	set         cpuset.CPUSet
+}
+
+type vtC06Live struct {
+	rm      ResourceManager
+	tom     TopologyOptionsManager
+	handler *podEventHandler
+	node    *corev1.Node
+	edges   []vtC06Edge
+}
+
+// cpu list string as a node agent / kubelet may write it: every range as "lo-hi" (also "8-8")
+// when style is 0, a one-element range as "8" otherwise
+func vtC06RangeString(ranges [][3]int64) string {
+	var items []string
+	for _, rg := range ranges {
+		if rg[0] > rg[1] {
+			continue
+		}
+		if rg[0] == rg[1] && rg[2] != 0 {
+			items = append(items, fmt.Sprintf("%d", rg[0]))
+		} else {
+			items = append(items, fmt.Sprintf("%d-%d", rg[0], rg[1]))
+		}
+	}
+	return strings.Join(items, ",")
+}
+
+// header: the topology and the reserved CPUs go through the NodeResourceTopology annotations and
+// NewTopologyOptions, exactly as the NRT event handler builds the options
+func vtC06NewLive(r *vtC06Rd) *vtC06Live {
 	vtC06SuitOnce.Do(func() { vtC06Suit = newPluginTestSuit(vtC06T, nil, nil) })
-	r := &vtC06Rd{in: in}
 	maxRef, most := r.next(), r.next()
-	topo := r.topology()
-	reserved := cpuset.NewCPUSet(r.list()...)
+	k := int(r.next())
+	reported := &extension.CPUTopology{}
+	for i := 0; i < k; i++ {
+		id, s, n, c := r.next(), r.next(), r.next(), r.next()
+		reported.Detail = append(reported.Detail, extension.CPUInfo{ID: int32(id), Core: int32(c), Socket: int32(s), Node: int32(n)})
+	}
+	nr := int(r.next())
+	var ranges [][3]int64
+	for i := 0; i < nr; i++ {
+		ranges = append(ranges, [3]int64{r.next(), r.next(), r.next()})
+	}
 	nc := int(r.next())
 	var caps []NUMANodeResource
 	for j := 0; j < nc; j++ {
 		nd, c, m := r.next(), r.next(), r.next()
 		caps = append(caps, NUMANodeResource{Node: int(nd), Resources: vtC06ResList(c, m)})
 	}
+	topoData, err := json.Marshal(reported)
+	if err != nil {
+		panic(err)
+	}
+	rsvData, err := json.Marshal(&extension.NodeReservation{ReservedCPUs: vtC06RangeString(ranges)})
+	if err != nil {
+		panic(err)
+	}
+	nrt := &nrtv1alpha1.NodeResourceTopology{ObjectMeta: metav1.ObjectMeta{Name: vtC06Node, Annotations: map[string]string{
+		extension.AnnotationNodeCPUTopology: string(topoData),
+		extension.AnnotationNodeReservation: string(rsvData),
+	}}}
+	opts := NewTopologyOptions(nrt)
+	if opts.CPUTopology.CPUDetails == nil {
+		opts.CPUTopology.CPUDetails = NewCPUDetails()
+	}
 	tom := NewTopologyOptionsManager()
 	tom.UpdateTopologyOptions(vtC06Node, func(o *TopologyOptions) {
-		o.CPUTopology = topo
+		o.CPUTopology = opts.CPUTopology
 		o.MaxRefCount = int(maxRef)
-		o.ReservedCPUs = reserved
+		o.ReservedCPUs = opts.ReservedCPUs
 		o.NUMANodeResources = caps
 	})
 	rm := NewResourceManager(vtC06Suit.Handle, vtC06Strategy(most), tom)
-	node := &corev1.Node{ObjectMeta: metav1.ObjectMeta{Name: vtC06Node}}
-	var out []int64
-	// bookkeeping of Spec.concretize / edges_alloc: (guest, host, CPUs the guest holds out of the host's)
-	type edge struct {
-		guest, host int64
-		set         cpuset.CPUSet
-	}
-	var edges []edge
-	edgesDel := func(uid int64) {
-		kept := edges[:0]
-		for _, e := range edges {
-			if e.guest != uid && e.host != uid {
-				kept = append(kept, e)
-			}
+	return &vtC06Live{rm: rm, tom: tom, handler: &podEventHandler{resourceManager: rm},
+		node: &corev1.Node{ObjectMeta: metav1.ObjectMeta{Name: vtC06Node}}}
+}
+
+func (l *vtC06Live) edgesDel(uid int64) {
+	kept := l.edges[:0]
+	for _, e := range l.edges {
+		if e.guest != uid && e.host != uid {
+			kept = append(kept, e)
 		}
-		edges = kept
 	}
-	liveSet := func(uid int64) (cpuset.CPUSet, bool) { return rm.GetAllocatedCPUSet(vtC06Node, vtC06UID(uid)) }
-	nops := int(r.next())
-	for k := 0; k < nops; k++ {
-		opcode := r.next()
-		switch opcode {
-		case 1, 4:
-			uid, n, bindReq, bind, required, excl, hf := r.next(), r.next(), r.next(), r.next(), r.next(), r.next(), r.next()
-			bits := r.list()
-			c, m := r.next(), r.next()
-			pod := &corev1.Pod{ObjectMeta: metav1.ObjectMeta{UID: vtC06UID(uid), Namespace: "default", Name: string(vtC06UID(uid))}}
-			options := &ResourceOptions{
-				numCPUsNeeded:         int(n),
-				requestCPUBind:        bindReq != 0,
-				requests:              vtC06ResList(c, m),
-				originalRequests:      vtC06ResList(c, m),
-				requiredCPUBindPolicy: required != 0,
-				cpuBindPolicy:         vtC06Bind(bind),
-				cpuExclusivePolicy:    vtC06Excl(excl),
-				topologyOptions:       tom.GetTopologyOptions(vtC06Node),
-			}
-			if hf != 0 {
-				mask, err := bitmask.NewBitMask(bits...)
-				if err != nil {
-					panic(err)
-				}
-				options.hint = topologymanager.NUMATopologyHint{NUMANodeAffinity: mask}
-			}
-			host, victim := int64(-1), int64(-1)
-			if opcode == 4 {
-				hof, ho, vf, v := r.next(), r.next(), r.next(), r.next()
-				_, uidLive := liveSet(uid)
-				if hof != 0 {
-					_, hl := liveSet(ho)
-					isGuest := false
-					for _, e := range edges {
-						if e.guest == ho {
-							isGuest = true
-						}
-					}
-					if hl && ho != uid && !uidLive && !isGuest {
-						host = ho
-					}
-				}
-				if vf != 0 {
-					_, vl := liveSet(v)
-					if vl && v != uid && !uidLive && v != host {
-						victim = v
-					}
-				}
-				if host >= 0 {
-					remaining, _ := liveSet(host)
-					for _, e := range edges {
-						if e.host == host {
-							remaining = remaining.Difference(e.set)
-						}
-					}
-					options.preferredCPUs = remaining
-				}
-				if victim >= 0 {
-					options.preemptibleCPUs, _ = liveSet(victim)
-				}
-			}
-			alloc, status := rm.Allocate(node, pod, options)
-			if status.IsSuccess() && alloc != nil {
-				if victim >= 0 {
-					rm.Release(vtC06Node, vtC06UID(victim))
-					edgesDel(victim)
-				}
-				edgesDel(uid)
-				if host >= 0 {
-					edges = append(edges, edge{guest: uid, host: host, set: alloc.CPUSet.Intersection(options.preferredCPUs)})
-				}
-				rm.Update(vtC06Node, alloc)
-				out = append(out, 1)
-				out = append(out, vtC06Ints(alloc.CPUSet.ToSlice())...)
-				out = append(out, int64(len(alloc.NUMANodeResources)))
-				for _, e := range alloc.NUMANodeResources {
-					cq, mq := e.Resources[corev1.ResourceCPU], e.Resources[corev1.ResourceMemory]
-					out = append(out, int64(e.Node), cq.MilliValue(), mq.Value())
-				}
-			} else {
-				out = append(out, 0, 0, 0)
-			}
-		case 2:
-			uid := r.next()
-			rm.Release(vtC06Node, vtC06UID(uid))
-			edgesDel(uid)
-			out = append(out, 1, 0, 0)
-		case 3:
-			uid, excl := r.next(), r.next()
-			cpus := r.list()
-			nn := int(r.next())
-			var nr []NUMANodeResource
-			for j := 0; j < nn; j++ {
-				nd, c, m := r.next(), r.next(), r.next()
-				nr = append(nr, NUMANodeResource{Node: int(nd), Resources: vtC06ResList(c, m)})
-			}
-			rm.Update(vtC06Node, &PodAllocation{UID: vtC06UID(uid), Namespace: "default", Name: string(vtC06UID(uid)),
-				CPUSet: cpuset.NewCPUSet(cpus...), CPUExclusivePolicy: vtC06Excl(excl), NUMANodeResources: nr})
-			edgesDel(uid)
-			out = append(out, 1, 0, 0)
-		default:
-			panic("bad op")
+	l.edges = kept
+}
+
+func (l *vtC06Live) liveSet(uid int64) (cpuset.CPUSet, bool) {
+	return l.rm.GetAllocatedCPUSet(vtC06Node, vtC06UID(uid))
+}
+
+// reads an allocation request in the op-1 format (after the opcode)
+func (l *vtC06Live) readRequest(r *vtC06Rd) (int64, *corev1.Pod, *ResourceOptions) {
+	uid, n, bindReq, bind, required, excl, hf := r.next(), r.next(), r.next(), r.next(), r.next(), r.next(), r.next()
+	bits := r.list()
+	c, m := r.next(), r.next()
+	pod := &corev1.Pod{ObjectMeta: metav1.ObjectMeta{UID: vtC06UID(uid), Namespace: "default", Name: string(vtC06UID(uid))}}
+	options := &ResourceOptions{
+		numCPUsNeeded:         int(n),
+		requestCPUBind:        bindReq != 0,
+		requests:              vtC06ResList(c, m),
+		originalRequests:      vtC06ResList(c, m),
+		requiredCPUBindPolicy: required != 0,
+		cpuBindPolicy:         vtC06Bind(bind),
+		cpuExclusivePolicy:    vtC06Excl(excl),
+		topologyOptions:       l.tom.GetTopologyOptions(vtC06Node),
+	}
+	if hf != 0 {
+		mask, err := bitmask.NewBitMask(bits...)
+		if err != nil {
+			panic(err)
 		}
-		out = append(out, vtC06Dump(rm)...)
+		options.hint = topologymanager.NUMATopologyHint{NUMANodeAffinity: mask}
+	}
+	return uid, pod, options
+}
+
+func vtC06EncResult(alloc *PodAllocation, ok bool) []int64 {
+	if !ok || alloc == nil {
+		return []int64{0, 0, 0}
+	}
+	out := []int64{1}
+	out = append(out, vtC06Ints(alloc.CPUSet.ToSlice())...)
+	out = append(out, int64(len(alloc.NUMANodeResources)))
+	for _, e := range alloc.NUMANodeResources {
+		cq, mq := e.Resources[corev1.ResourceCPU], e.Resources[corev1.ResourceMemory]
+		out = append(out, int64(e.Node), cq.MilliValue(), mq.Value())
 	}
 	return out
 }
 
+// one operation of the history; returns its observation (result and dumps)
+func (l *vtC06Live) apply(r *vtC06Rd) []int64 {
+	var out []int64
+	opcode := r.next()
+	switch opcode {
+	case 1, 4:
+		uid, pod, options := l.readRequest(r)
+		host, victim := int64(-1), int64(-1)
+		if opcode == 4 {
+			hof, ho, vf, v := r.next(), r.next(), r.next(), r.next()
+			_, uidLive := l.liveSet(uid)
+			if hof != 0 {
+				_, hl := l.liveSet(ho)
+				isGuest := false
+				for _, e := range l.edges {
+					if e.guest == ho {
+						isGuest = true
+					}
+				}
+				if hl && ho != uid && !uidLive && !isGuest {
+					host = ho
+				}
+			}
+			if vf != 0 {
+				_, vl := l.liveSet(v)
+				if vl && v != uid && !uidLive && v != host {
+					victim = v
+				}
+			}
+			if host >= 0 {
+				remaining, _ := l.liveSet(host)
+				for _, e := range l.edges {
+					if e.host == host {
+						remaining = remaining.Difference(e.set)
+					}
+				}
+				options.preferredCPUs = remaining
+			}
+			if victim >= 0 {
+				options.preemptibleCPUs, _ = l.liveSet(victim)
+			}
+		}
+		alloc, status := l.rm.Allocate(l.node, pod, options)
+		ok := status.IsSuccess() && alloc != nil
+		if ok {
+			if victim >= 0 {
+				l.rm.Release(vtC06Node, vtC06UID(victim))
+				l.edgesDel(victim)
+			}
+			l.edgesDel(uid)
+			if host >= 0 {
+				l.edges = append(l.edges, vtC06Edge{guest: uid, host: host, set: alloc.CPUSet.Intersection(options.preferredCPUs)})
+			}
+			l.rm.Update(vtC06Node, alloc)
+		}
+		out = append(out, vtC06EncResult(alloc, ok)...)
+	case 2:
+		uid := r.next()
+		l.rm.Release(vtC06Node, vtC06UID(uid))
+		l.edgesDel(uid)
+		out = append(out, 1, 0, 0)
+	case 3:
+		// a pod event: the allocation is read back from the pod's annotations by the real handler
+		uid, excl := r.next(), r.next()
+		cpus := r.list()
+		nn := int(r.next())
+		status := &extension.ResourceStatus{}
+		var items []string
+		for k, c := range cpus {
+			if k%2 == 0 {
+				items = append(items, fmt.Sprintf("%d-%d", c, c))
+			} else {
+				items = append(items, fmt.Sprintf("%d", c))
+			}
+		}
+		status.CPUSet = strings.Join(items, ",")
+		for j := 0; j < nn; j++ {
+			nd, c, m := r.next(), r.next(), r.next()
+			status.NUMANodeResources = append(status.NUMANodeResources, extension.NUMANodeResource{Node: int32(nd), Resources: vtC06ResList(c, m)})
+		}
+		pod := &corev1.Pod{ObjectMeta: metav1.ObjectMeta{UID: vtC06UID(uid), Namespace: "default", Name: string(vtC06UID(uid))},
+			Spec: corev1.PodSpec{NodeName: vtC06Node}, Status: corev1.PodStatus{Phase: corev1.PodRunning}}
+		if err := extension.SetResourceStatus(pod, status); err != nil {
+			panic(err)
+		}
+		if err := extension.SetResourceSpec(pod, &extension.ResourceSpec{PreferredCPUExclusivePolicy: extension.CPUExclusivePolicy(vtC06Excl(excl))}); err != nil {
+			panic(err)
+		}
+		l.handler.OnAdd(pod, false)
+		if len(cpus) > 0 || nn > 0 {
+			l.edgesDel(uid)
+		}
+		out = append(out, 1, 0, 0)
+	default:
+		panic("bad op")
+	}
+	return append(out, vtC06Dump(l.rm)...)
+}
+
+func vtC06LedgerExec(in []int64) []int64 {
+	r := &vtC06Rd{in: in}
+	l := vtC06NewLive(r)
+	var out []int64
+	nops := int(r.next())
+	for k := 0; k < nops; k++ {
+		out = append(out, l.apply(r)...)
+	}
+	return out
+}
+
+// ---------------------------------------------------------------- stream "conc"
+
+// set-up history, then: pod x re-recorded once by Update; one goroutine repeats that Update ku
+// times while every allocator goroutine calls Allocate repeatedly for its request. Update is one
+// critical section, so every Allocate must give the same answer; the answer that differs from the
+// first one (if any) is what is reported.
+func vtC06ConcExec(in []int64) []int64 {
+	r := &vtC06Rd{in: in}
+	l := vtC06NewLive(r)
+	var out []int64
+	nops := int(r.next())
+	for k := 0; k < nops; k++ {
+		out = append(out, l.apply(r)...)
+	}
+	x, ku := r.next(), int(r.next())
+	na := int(r.next())
+	type request struct {
+		pod     *corev1.Pod
+		options *ResourceOptions
+	}
+	var reqs []request
+	for j := 0; j < na; j++ {
+		if r.next() != 1 {
+			panic("bad allocator request")
+		}
+		_, pod, options := l.readRequest(r)
+		reqs = append(reqs, request{pod, options})
+	}
+	var xAlloc *PodAllocation
+	na0 := l.rm.GetNodeAllocation(vtC06Node)
+	na0.lock.RLock()
+	if pa, ok := na0.allocatedPods[vtC06UID(x)]; ok {
+		cp := pa
+		xAlloc = &cp
+	}
+	na0.lock.RUnlock()
+	if xAlloc != nil {
+		l.rm.Update(vtC06Node, xAlloc)
+	}
+	results := make([][]int64, na)
+	var wg sync.WaitGroup
+	start := make(chan struct{})
+	done := make(chan struct{})
+	if xAlloc != nil && ku > 0 {
+		wg.Add(1)
+		go func() {
+			defer wg.Done()
+			<-start
+			for k := 0; k < ku; k++ {
+				l.rm.Update(vtC06Node, xAlloc)
+				runtime.Gosched()
+			}
+			close(done)
+		}()
+	} else {
+		close(done)
+	}
+	for j := range reqs {
+		j := j
+		wg.Add(1)
+		go func() {
+			defer wg.Done()
+			<-start
+			var first []int64
+			for it := 0; ; it++ {
+				alloc, status := l.rm.Allocate(l.node, reqs[j].pod, reqs[j].options)
+				res := vtC06EncResult(alloc, status.IsSuccess() && alloc != nil)
+				if first == nil {
+					first = res
+					results[j] = res
+				} else if vtJoin(res) != vtJoin(first) {
+					results[j] = res
+					return
+				}
+				select {
+				case <-done:
+					if it >= 2 {
+						return
+					}
+				default:
+				}
+			}
+		}()
+	}
+	close(start)
+	wg.Wait()
+	for j := range reqs {
+		out = append(out, results[j]...)
+	}
+	return append(out, vtC06Dump(l.rm)...)
+}
+
 func vtC06LedgerGen(r *rand.Rand, i int) (string, []int64) {
-	style := r.Intn(3) // 0: with restored allocations (Update), 1: reservations with give-backs, 2: plain
+	return vtC06HistoryGen(r, r.Intn(3))
+}
+
+// style 0: with restored allocations (pod events), 1: reservations with give-backs, 2: plain
+func vtC06HistoryGen(r *rand.Rand, style int) (string, []int64) {
 	maxCPUs := 32
 	if style == 1 {
 		maxCPUs = 16
@@ -702,11 +904,21 @@ func vtC06LedgerGen(r *rand.Rand, i int) (string, []int64) {
 		maxRef = 1
 	}
 	most := int64(r.Intn(2))
-	var reserved []int
-	for _, c := range cpus {
-		if r.Intn(12) == 0 {
-			reserved = append(reserved, c.id)
+	// reserved CPUs as ranges of ids (lo, hi, spelling): runs of consecutive topology ids, often a
+	// one-element range spelled "a-a"
+	var reserved []int64
+	nReserved := 0
+	for k := 0; k < len(cpus); k++ {
+		if r.Intn(12) != 0 {
+			continue
 		}
+		lo, hi := cpus[k].id, cpus[k].id
+		if r.Intn(3) == 0 && k+1 < len(cpus) && cpus[k+1].id == hi+1 {
+			hi++
+			k++
+		}
+		reserved = append(reserved, int64(lo), int64(hi), int64(r.Intn(3)/2))
+		nReserved++
 	}
 	nodeCPUs := map[int]int{}
 	tpc := map[int]int{}
@@ -725,7 +937,8 @@ func vtC06LedgerGen(r *rand.Rand, i int) (string, []int64) {
 	sort.Ints(nodes)
 	in := []int64{maxRef, most}
 	in = append(in, vtC06EncTopo(cpus)...)
-	in = append(in, vtC06Ints(reserved)...)
+	in = append(in, int64(nReserved))
+	in = append(in, reserved...)
 	memUnit := int64(1 + r.Intn(8))
 	if r.Intn(8) == 0 {
 		in = append(in, 0)
@@ -852,4 +1065,54 @@ func vtC06LedgerGen(r *rand.Rand, i int) (string, []int64) {
 func TestVerifC06Ledger(t *testing.T) {
 	vtC06T = t
 	vtMain(t, "C06", vtC06LedgerGen, vtC06LedgerExec)
+}
+
+// conc: a short plain history that leaves pod 0 (mostly) alive, then the concurrent section
+func vtC06ConcGen(r *rand.Rand, i int) (string, []int64) {
+	cpus := vtC06GenTopo(r, 24)
+	maxRef := int64(1)
+	if r.Intn(5) == 0 {
+		maxRef = 2
+	}
+	in := []int64{maxRef, int64(r.Intn(2))}
+	in = append(in, vtC06EncTopo(cpus)...)
+	if r.Intn(3) == 0 && len(cpus) > 2 {
+		c := cpus[r.Intn(len(cpus))].id
+		in = append(in, 1, int64(c), int64(c), 0)
+	} else {
+		in = append(in, 0)
+	}
+	in = append(in, 0) // no NUMA capacities: plain cpuset allocations
+	request := func(uid, n int64) []int64 {
+		return []int64{1, uid, n, 1, int64(r.Intn(3)), 0, int64(r.Intn(3)), 0, 0, n * 1000, -1}
+	}
+	var ops [][]int64
+	ops = append(ops, request(0, int64(1+r.Intn(1+len(cpus)/3))))
+	for k := r.Intn(3); k > 0; k-- {
+		switch r.Intn(4) {
+		case 0:
+			ops = append(ops, []int64{2, int64(r.Intn(3))})
+		default:
+			ops = append(ops, request(int64(1+r.Intn(2)), int64(1+r.Intn(1+len(cpus)/4))))
+		}
+	}
+	in = append(in, int64(len(ops)))
+	for _, o := range ops {
+		in = append(in, o...)
+	}
+	na := 2 + r.Intn(2)
+	in = append(in, 0, int64(150+r.Intn(150)), int64(na))
+	for j := 0; j < na; j++ {
+		n := int64(len(cpus)/2 + r.Intn(1+len(cpus)/2))
+		if r.Intn(4) == 0 {
+			n = int64(1 + r.Intn(len(cpus)))
+		}
+		in = append(in, request(int64(7+j), n)...)
+	}
+	return fmt.Sprintf("ref%d:alloc%d", maxRef, na), in
+}
+
+func TestVerifC06Conc(t *testing.T) {
+	vtC06T = t
+	vtMain(t, "C06", vtC06ConcGen, vtC06ConcExec)
 }
